@@ -297,6 +297,11 @@ class ResidualVQ(Module):
     ):
         num_quant, quant_dropout_multiple_of, return_loss, device = self.num_quantizers, self.quantize_dropout_multiple_of, exists(indices), x.device
 
+        # padded positions must not reach the input projection (the layers zero them out only after it)
+
+        if exists(mask) and self.has_projections:
+            x = x.masked_fill(~rearrange(mask, 'b n -> b n 1'), 0.)
+
         x = self.project_in(x)
 
         assert not (self.accept_image_fmap and exists(indices))
